@@ -47,7 +47,7 @@ def _tmpdir():
 def stream_case(draw):
     union_root = draw(st.integers(0, 4)) == 0
     o = gens.opts(max_fields=5, max_depth=2, eof=True, signed_flags=False, long_strings=True, null_structs=True, bits_char=True, bits_odd=True, wide_bits=True, dynamic=not union_root)
-    case = draw(gens.input_case(o, tail=False, root_kind="union" if union_root else "struct"))
+    case = draw(gens.input_case(o, tail=False, root_kind="union" if union_root else "struct", cfg_kw={"flip": True}))
     align = case["cfg"]["align"]
     sem = refsem.Sem(case["defs"], case["cfg"])
     # aligned structures start at a multiple of their own alignment (not only at multiples of 16)
